@@ -1590,6 +1590,14 @@ where
                         }
 
                         if should_send_to_server {
+                            // In the middle of COPY FROM STDIN the server aborts the COPY on the first
+                            // of these messages and answers it with ReadyForQuery, then answers the
+                            // Sync with a second one, which nobody is going to read: this connection
+                            // can't be given to another client afterwards.
+                            if server.in_copy_mode() {
+                                server.mark_bad("extended protocol batch during COPY");
+                            }
+
                             self.send_and_receive_loop(
                                 code,
                                 None,
